@@ -150,6 +150,14 @@ type UpgradeableBeaconState interface {
 	UpgradeMaybe(ctx context.Context, spec *Spec, epc *EpochsContext) error
 }
 
+// WrappedBeaconState is implemented by states that delegate to another state (like an upgradeable state holder).
+// Fork-specific capabilities, such as SyncCommitteeBeaconState, are looked up on the state it holds.
+type WrappedBeaconState interface {
+	BeaconState
+	// UnwrapBeaconState returns the state this state delegates to.
+	UnwrapBeaconState() BeaconState
+}
+
 type SyncCommitteeBeaconState interface {
 	BeaconState
 	CurrentSyncCommittee() (*SyncCommitteeView, error)
